@@ -1,5 +1,10 @@
 """C07 — every simulated state is physical and gates conserve what they must."""
+import math
+
 import numpy as np
+
+import strawberryfields as sf
+from strawberryfields import ops as sfops
 
 from props import backends_common as bc
 from props import gauss_common as gc
@@ -9,15 +14,21 @@ from vlib import sfgen
 PROP = "C07"
 LEVEL = "proof"
 COQ_DIRS = ["C07", "Bosonic"]
-COQ_TARGETS = ["Gen/GaussCirc.vo", "Base/MatOps.vo", "Gen/GaussMat.vo", "C07/GaussPassive.vo", "C07/GaussProgram.vo", "Base/GaussTac.vo", "Base/PhaseSpace.vo", "C07/GaussPhysical.vo", "C07/Symplectic.vo"] + list(bm.COQ_TARGETS)
+COQ_TARGETS = ["Gen/GaussCirc.vo", "Base/MatOps.vo", "Gen/GaussMat.vo", "C07/GaussPassive.vo", "Base/GaussTac.vo", "Base/PhaseSpace.vo", "C07/GaussPhysical.vo", "C07/Symplectic.vo"] + list(bm.COQ_TARGETS)
 PROPERTIES_FILE = "Properties/C07.v"
 EXTRA_PROPERTIES_FILES = [bm.PROPERTIES_FILE]
 ALLOWED_AXIOMS = set()
 TRANSLATORS = [gc.translate_gausscirc, gc.translate_gaussmat_fn]
-RULE = ("(a) generated-function correspondence as in C05; (b) physicality search: random circuits (weak correlated prefix + 1-4 random "
-        "commands, n = 1..4 modes, any ordered targets) on gaussian / bosonic / fock-pure / fock-mixed; checks: cov symmetric and "
-        "cov + i*Omega >= 0, dm Hermitian PSD trace <= 1, bosonic weights sum to 1, purity preserved by unitaries, total photon number "
-        "conserved by passive gates and not increased by loss; non-trivial = >= 2 modes and a command on a mode other than 0")
+RULE = ("(a) generated-function correspondence as in C05; (b) physicality search through the state API (cov/means, dm, trace, weights, mean_photon, purity) at hbar in "
+        "{2, 1, 0.5, 1.7, 4}: random circuits (weak correlated prefix + 1-4 commands, n = 1..5 and 10..11 modes, any ordered targets; Gaussian preparations on subsets, "
+        "selected and sampled homodyne / heterodyne / threshold measurements, measurement-based squeezing) evaluated command by command on gaussian / bosonic, before/after "
+        "on fock-pure / fock-mixed; New/Del histories; multi-component bosonic states (Catstate complex / real, GKP, Fock) through gates, channels and measurements; an "
+        "exactly representable Fock family (number states / random kets / density matrices below the cutoff, passive + Kerr gates, loss incl. T = 0, 1, mid-circuit "
+        "preparations, post-selected photon counting, New/Del, 9-10 modes at cutoff 2) where trace, photon number and purity must be exact; a low-energy Fock family at a "
+        "large cutoff where every command may lose trace only in proportion to the population next to the cutoff; hbar-invariance of photon numbers and purity; vacuum "
+        "anchors. Checks: cov symmetric and cov + i hbar/2 Omega >= 0, dm Hermitian PSD trace <= 1, weights sum to 1, Q function real and non-negative, purity <= 1 and "
+        "preserved by unitaries, total mean photon number conserved by passive (and Kerr) gates and not increased by loss, mean_photon / trace / purity consistent with "
+        "cov / dm; non-trivial = >= 2 modes and a command on a mode other than 0")
 TRUSTED_BASE = [
     "Coq 8.16.1 kernel; vm_compute for evaluating generated functions at PrimFloat",
     "translator tools/translate_gauss.py (fail-closed; validated against GaussianModes at binary64 on every run)",
@@ -30,9 +41,15 @@ MANIFEST_TEXT = ("Proved over any commutative ring, all register sizes / targets
                  "Positivity (uncertainty relation), Fock PSD/trace, bosonic weights: search only (partial).")
 
 PASSIVE = ["Rgate", "BSgate", "MZgate", "Fouriergate"]
+NUMBER_PRESERVING = PASSIVE + ["Kgate", "CKgate"]
 UNITARY = list(sfgen.GAUSSIAN_GATES)
+ALL_UNITARY = UNITARY + list(sfgen.NONGAUSS)
+HBARS = [2, 2, 2, 1, 0.5, 1.7, 4]
 
 
+# ------------------------------------------------------------------------------------------------------------
+# correspondence (unchanged)
+# ------------------------------------------------------------------------------------------------------------
 def correspondence(ctx):
     bm.correspondence_bosonic(ctx, predicates=('weights', 'symmetric', 'spectator'))
     bad = gc.correspondence_apply_u(ctx, ctx.budget(60, 600), tag="c07au")
@@ -73,6 +90,100 @@ def herm_violation(c):
     return None
 
 
+# ------------------------------------------------------------------------------------------------------------
+# programs
+# ------------------------------------------------------------------------------------------------------------
+def _carr(p):
+    return np.array(p[0], dtype=float) + 1j * np.array(p[1], dtype=float)
+
+
+def make_op(name, params, dagger, regs):
+    """Operations beyond vlib.sfgen.make_op (all parameters are plain JSON)."""
+    if name == "Catstate":            # [a, phi, p, representation]
+        return sfops.Catstate(params[0], params[1], params[2], representation=params[3])
+    if name == "GKP":                 # [theta, phi, epsilon, ampl_cutoff]
+        return sfops.GKP([params[0], params[1]], epsilon=params[2], ampl_cutoff=params[3])
+    if name == "MSgate":              # [r, phi, r_anc, eta_anc, avg]
+        return sfops.MSgate(params[0], params[1], r_anc=params[2], eta_anc=params[3], avg=bool(params[4]))
+    if name == "MeasureFockSel":      # [k, ...] one per measured mode
+        return sfops.MeasureFock(select=[int(k) for k in params])
+    if name == "MeasureFock":
+        return sfops.MeasureFock()
+    if name == "MeasureHomodyne":     # [phi], sampled
+        return sfops.MeasureHomodyne(params[0])
+    if name == "MeasureHeterodyne":
+        return sfops.MeasureHeterodyne()
+    if name == "MeasureThreshold":
+        return sfops.MeasureThreshold()
+    if name == "Ket":                 # [re, im] tensors with one axis per mode
+        return sfops.Ket(_carr(params))
+    if name == "DensityMatrix":       # [re, im] tensors with two axes per mode
+        return sfops.DensityMatrix(_carr(params))
+    return sfgen.make_op(name, params, dagger, regs)
+
+
+def build_program(spec):
+    prog = sf.Program(spec["n"])
+    with prog.context as q:
+        regs = list(q)
+        for name, params, modes, dagger in spec["cmds"]:
+            if name == "New":
+                (r,) = sfops.New(1)
+                assert r.ind == modes[0] == len(regs), (r.ind, modes, len(regs))
+                regs.append(r)
+                continue
+            if name == "Del":
+                sfops.Del | regs[modes[0]]
+                continue
+            make_op(name, params, dagger, regs) | tuple(regs[m] for m in modes)
+    return prog
+
+
+def run_spec(spec, backend, cutoff=8, hbar=2, np_seed=None):
+    """One engine run; sf.hbar is set for the duration of the run (state objects remember it)."""
+    old = sf.hbar
+    sf.hbar = hbar
+    try:
+        if np_seed is not None:
+            np.random.seed(int(np_seed))
+        prog = build_program(spec)
+        if backend == "gaussian":
+            eng = sf.Engine("gaussian")
+        elif backend == "bosonic":
+            eng = sf.Engine("bosonic")
+        elif backend == "fock-pure":
+            eng = sf.Engine("fock", backend_options={"cutoff_dim": cutoff, "pure": True})
+        elif backend == "fock-mixed":
+            eng = sf.Engine("fock", backend_options={"cutoff_dim": cutoff, "pure": False})
+        else:
+            raise ValueError(backend)
+        return eng.run(prog).state
+    finally:
+        sf.hbar = old
+
+
+def live_modes(spec):
+    """external indices of the modes alive at the end of the program, ascending (the order of the returned state)"""
+    if "live" in spec:
+        return sorted(spec["live"])
+    live = list(range(spec["n"]))
+    total = spec["n"]
+    for c in spec["cmds"]:
+        if c[0] == "New":
+            live.append(total)
+            total += 1
+        elif c[0] == "Del":
+            live.remove(c[2][0])
+    return live
+
+
+def n_live(spec):
+    return len(live_modes(spec))
+
+
+# ------------------------------------------------------------------------------------------------------------
+# observables and the physicality predicate (everything is read through the state API)
+# ------------------------------------------------------------------------------------------------------------
 def omega(n):
     O = np.zeros((2 * n, 2 * n))
     O[:n, n:] = np.eye(n)
@@ -80,104 +191,436 @@ def omega(n):
     return O
 
 
-def gaussian_physical(means, cov):
+def gaussian_physical(means, cov, hbar=2, extra=0.0):
     n = len(means) // 2
-    if np.abs(cov - cov.T).max() > 1e-9:
+    s = hbar / 2
+    scale = max(1.0, float(np.abs(cov).max()) / s)
+    if np.abs(cov - cov.T).max() > (1e-9 + extra) * s * scale:
         return "cov-not-symmetric"
-    ev = np.linalg.eigvalsh(cov + 1j * omega(n))
-    if ev.min() < -1e-7:
+    ev = np.linalg.eigvalsh(cov / s + 1j * omega(n))
+    if ev.min() < -(1e-7 + extra) * scale:
         return "uncertainty-violated(min eig %.3g)" % ev.min()
     return None
 
 
-def total_photons_gauss(means, cov):
+def _photons_from_moments(means, cov, hbar):
     n = len(means) // 2
-    return sum((cov[i, i] + cov[i + n, i + n]) / 4 - 0.5 + (means[i] ** 2 + means[i + n] ** 2) / 4 for i in range(n))
+    return [float((cov[i, i] + cov[i + n, i + n] + means[i] ** 2 + means[i + n] ** 2) / (2 * hbar) - 0.5) for i in range(n)]
 
 
-def purity_gauss(cov):
-    return 1.0 / np.sqrt(np.linalg.det(cov))
+def _api_photons(st, n, imag_tol=1e-9):
+    out = []
+    for i in range(n):
+        m = st.mean_photon(i)[0]
+        m = complex(m)
+        if abs(m.imag) > imag_tol:
+            return None, "mean_photon-complex(%.3g)" % m.imag
+        out.append(m.real)
+    return out, None
 
 
-def check_state(backend, spec, cutoff=8):
-    """Returns (violation-kind or None, measures dict)."""
-    st = bc.run(spec, backend, cutoff)
-    if backend in ("gaussian", "bosonic"):
-        if backend == "bosonic":
-            w = np.array(st.weights())
-            if abs(w.sum() - 1) > 1e-9:
-                return "weights-sum(%.6g)" % abs(w.sum()), {}
-        means, cov = bc.gauss_obs(st)
-        v = gaussian_physical(means, cov)
-        return v, {"photons": float(total_photons_gauss(means, cov)), "purity": float(purity_gauss(cov))}
-    dm = st.dm()
-    n = len(spec["live"]) if "live" in spec else spec["n"]
-    # reshape (i0,j0,i1,j1,...) -> matrix
+def observe_gaussian(st, hbar):
+    means, cov = np.array(st.means(), dtype=float), np.array(st.cov(), dtype=float)
+    n = len(means) // 2
+    v = gaussian_physical(means, cov, hbar)
+    if v:
+        return v, {}
+    ph, bad = _api_photons(st, n)
+    if bad:
+        return bad, {}
+    own = _photons_from_moments(means, cov, hbar)
+    for i in range(n):
+        if abs(ph[i] - own[i]) > 1e-8 * (1 + abs(own[i])):
+            return "mean_photon-inconsistent-with-cov(mode %d: %.9g vs %.9g)" % (i, ph[i], own[i]), {}
+    purity = float((hbar / 2) ** n / np.sqrt(np.linalg.det(cov)))
+    return None, {"photons": ph, "total": float(sum(ph)), "purity": purity}
+
+
+MAX_W_PURITY = 320
+
+
+def _q_function_violation(w, mu, cv, hbar, rs):
+    """Husimi Q of sum_i w_i Gaussian(mu_i, V_i) at a few phase-space points: must be real and non-negative."""
+    k = mu.shape[1]
+    s = hbar / 2
+    S = cv + s * np.eye(k)
+    Si = np.linalg.inv(S)
+    pref = w / np.sqrt(np.linalg.det(S))
+    centre = mu.real
+    lo, hi = centre.min(axis=0) - 1.5 * math.sqrt(hbar), centre.max(axis=0) + 1.5 * math.sqrt(hbar)
+    pts = rs.uniform(lo, hi, size=(24, k))
+    pts[:min(8, len(centre))] = centre[rs.choice(len(centre), size=min(8, len(centre)), replace=False)]
+    vals, mags = [], []
+    for b in pts:
+        d = b - mu
+        terms = pref * np.exp(-0.5 * np.einsum("ij,ijk,ik->i", d, Si, d))
+        vals.append(np.sum(terms))
+        mags.append(float(np.abs(terms).sum()))
+    top = max(abs(q) for q in vals)
+    for q, mg in zip(vals, mags):
+        tol = 1e-8 * top + 1e-11 * mg
+        if abs(q.imag) > tol:
+            return "q-function-complex(%.3g of %.3g)" % (q.imag, top)
+        if q.real < -tol:
+            return "q-function-negative(%.3g of %.3g)" % (q.real, top)
+    return None
+
+
+def observe_bosonic(st, hbar, dm_cutoff=None):
+    w = np.array(st.weights(), dtype=complex)
+    mu = np.array(st.means(), dtype=complex)
+    cv = np.array(st.covs(), dtype=complex)
+    n = mu.shape[1] // 2
+    s = hbar / 2
+    # sums over the components are alternating for the non-Gaussian preparations (bosonic Fock(3): |w| ~ 1e8): every tolerance
+    # carries the rounding noise of such a sum, eps * sum |w_i|
+    cond = float(np.abs(w).sum())
+    noise = 1e-13 * cond
+    if abs(w.sum() - 1) > 1e-8 + noise:
+        return "weights-sum(%.6g)" % abs(w.sum()), {}
+    if np.abs(cv - cv.transpose(0, 2, 1)).max() > 1e-9 * s * max(1.0, float(np.abs(cv).max()) / s):  # (per component: no cancellation involved)
+        return "cov-not-symmetric", {}
+    m = np.einsum("i,ij->j", w, mu)
+    V = np.einsum("i,ijk->jk", w, cv) + np.einsum("i,ij,ik->jk", w, mu, mu) - np.outer(m, m)
+    mscale = max(1.0, float(np.abs(mu).max()) ** 2, float(np.abs(cv).max()))
+    if max(np.abs(m.imag).max(), np.abs(V.imag).max()) > (1e-7 + noise) * mscale:
+        return "wigner-moments-complex", {}
+    perm = [2 * i for i in range(n)] + [2 * i + 1 for i in range(n)]
+    means, cov = m.real[perm], V.real[np.ix_(perm, perm)]
+    v = gaussian_physical(means, cov, hbar, extra=noise * mscale / s)
+    if v:
+        return v, {}
+    try:
+        ph, bad = _api_photons(st, n, 1e-9 + noise * mscale)
+    except ValueError as e:
+        return "mean_photon-complex(%s)" % str(e)[:40], {}
+    if bad:
+        return bad, {}
+    own = _photons_from_moments(means, cov, hbar)
+    for i in range(n):
+        if abs(ph[i] - own[i]) > (1e-7 + noise * mscale / s) * (1 + abs(own[i])):
+            return "mean_photon-inconsistent-with-cov(mode %d: %.9g vs %.9g)" % (i, ph[i], own[i]), {}
+    pnoise = 1e-14 * cond ** 2
+    meas = {"photons": ph, "total": float(sum(ph)), "weights": int(len(w)), "ph_noise": noise * mscale / s, "pur_noise": pnoise}
+    if len(w) <= MAX_W_PURITY and pnoise < 1e-3:
+        p = complex(st.purity())
+        if abs(p.imag) > 1e-7 + pnoise:
+            return "purity-complex(%.3g)" % p.imag, {}
+        if len(w) == 1:
+            ref = float((hbar / 2) ** n / np.sqrt(np.linalg.det(cv[0].real)))
+            if abs(p.real - ref) > 1e-7 * (1 + ref):
+                return "purity-inconsistent-with-cov(%.9g vs %.9g)" % (p.real, ref), {}
+        if p.real > 1 + 1e-6 + pnoise:
+            return "purity-above-one(%.9g)" % p.real, {}
+        meas["purity"] = p.real
+    if len(w) > 1:
+        rs = np.random.RandomState(12345)
+        v = _q_function_violation(w, mu, cv, hbar, rs)
+        if v:
+            return v, {}
+    if dm_cutoff and np.abs(mu.imag).max() < 1e-12 and np.abs(w.imag).max() < 1e-12:
+        # (complex component means: thewalrus is not analytic in them, recorded under C16 and C07's corpus)
+        for i in range(n):
+            rho = np.array(st.reduced_dm([i], cutoff=dm_cutoff))
+            if np.abs(rho - rho.conj().T).max() > 1e-8 + 10 * noise:
+                return "dm-not-hermitian(mode %d)" % i, {}
+            ev = np.linalg.eigvalsh((rho + rho.conj().T) / 2)
+            if ev.min() < -1e-6 - 10 * noise:
+                return "dm-not-psd(mode %d, min eig %.3g)" % (i, ev.min()), {}
+            if np.trace(rho).real > 1 + 1e-6 + 10 * noise:
+                return "trace-above-one(%.8f)" % np.trace(rho).real, {}
+    return None, meas
+
+
+def fock_matrix(st, n, cutoff):
+    dm = np.array(st.dm())
     perm = [2 * i for i in range(n)] + [2 * i + 1 for i in range(n)]
     D = cutoff ** n
-    mat = np.transpose(dm, perm).reshape(D, D)
+    return np.transpose(dm, perm).reshape(D, D)
+
+
+def observe_fock(st, n, cutoff, tol=1e-9, psd_tol=1e-7):
+    mat = fock_matrix(st, n, cutoff)
     tr = float(np.real(np.trace(mat)))
-    if np.abs(mat - mat.conj().T).max() > 1e-9:
+    if np.abs(mat - mat.conj().T).max() > tol:
         return "dm-not-hermitian", {}
     ev = np.linalg.eigvalsh((mat + mat.conj().T) / 2)
-    if ev.min() < -1e-7:
+    if ev.min() < -psd_tol:
         return "dm-not-psd(min eig %.3g)" % ev.min(), {}
-    if tr > 1 + 1e-7:
+    if tr > 1 + psd_tol:
         return "trace-above-one(%.8f)" % tr, {}
-    photons = float(sum(st.mean_photon(i)[0] for i in range(n)))
-    purity = float(np.real(np.trace(mat @ mat)))
-    return None, {"photons": photons, "purity": purity, "trace": tr}
+    tr_api = float(np.real(st.trace()))
+    if abs(tr_api - tr) > 1e-9 * (1 + abs(tr)):
+        return "trace-inconsistent-with-dm(%.9g vs %.9g)" % (tr_api, tr), {}
+    probs = np.real(np.diag(mat)).reshape([cutoff] * n)
+    ph, top = [], 0.0
+    for i in range(n):
+        marg = probs.sum(axis=tuple(j for j in range(n) if j != i)) if n > 1 else probs
+        own = float(np.sum(np.arange(cutoff) * marg))
+        api = complex(st.mean_photon(i)[0])
+        if abs(api - own) > 1e-9 * (1 + abs(own)):
+            return "mean_photon-inconsistent-with-dm(mode %d: %.9g vs %.9g)" % (i, api.real, own), {}
+        ph.append(own)
+        top += float(np.sum(marg[max(0, cutoff - 2):]))
+    purity = float(np.real(np.sum(mat * mat.T)))   # tr(rho^2) for Hermitian rho
+    return None, {"photons": ph, "total": float(sum(ph)), "purity": purity, "trace": tr, "top": top}
 
 
-def search(ctx):
-    rng = ctx.rng
-    per = ctx.budget({"gaussian": 60, "bosonic": 40, "fock-pure": 14, "fock-mixed": 10},
-                     {"gaussian": 600, "bosonic": 400, "fock-pure": 120, "fock-mixed": 80})
-    for backend, cnt in per.items():
-        fock = backend.startswith("fock")
-        for _ in range(cnt):
-            n = rng.randint(1, 3 if fock else 4)
-            pre = bc.weak_prefix(rng, n)
+def observe(st, backend, n, cutoff=8, hbar=2, **kw):
+    if backend == "gaussian":
+        return observe_gaussian(st, hbar)
+    if backend == "bosonic":
+        return observe_bosonic(st, hbar, kw.get("dm_cutoff"))
+    return observe_fock(st, n, cutoff, kw.get("tol", 1e-9), kw.get("psd_tol", 1e-7))
+
+
+def check_state(backend, spec, cutoff=8, hbar=2, np_seed=None, **kw):
+    """Returns (violation-kind or None, measures dict)."""
+    st = run_spec(spec, backend, cutoff, hbar, np_seed)
+    return observe(st, backend, n_live(spec), cutoff, hbar, **kw)
+
+
+def classify(cmds):
+    """weakest law that holds for the whole list: 'passive' (photon number and purity), 'unitary' (purity), 'loss' (photon number does not grow), None."""
+    names = [c[0] for c in cmds]
+    if not names:
+        return None
+    if all(x in NUMBER_PRESERVING for x in names):
+        return "passive"
+    if all(x in ALL_UNITARY for x in names):
+        return "unitary"
+    if all(x in NUMBER_PRESERVING or x in ("LossChannel", "PassiveChannel") for x in names):
+        return "loss"
+    return None
+
+
+def law_violation(kind, m0, m1, ph_tol, pur_tol):
+    if kind == "passive" and abs(m1["total"] - m0["total"]) > ph_tol * (1 + abs(m0["total"])):
+        return "photons", "passive-changes", "changed total mean photon number %.9g -> %.9g" % (m0["total"], m1["total"])
+    if kind == "loss" and m1["total"] > m0["total"] + ph_tol * (1 + abs(m0["total"])):
+        return "photons", "loss-increases", "increased total mean photon number %.9g -> %.9g" % (m0["total"], m1["total"])
+    if kind in ("unitary", "passive") and "purity" in m0 and "purity" in m1 and abs(m1["purity"] - m0["purity"]) > pur_tol:
+        return "purity", "unitary-changes", "changed purity %.9g -> %.9g" % (m0["purity"], m1["purity"])
+    return None
+
+
+def opsig(cmds):
+    return "+".join(sorted(set(c[0] for c in cmds)))
+
+
+def bshort(backend):
+    return backend.split("-")[0]
+
+
+# ------------------------------------------------------------------------------------------------------------
+# family 1: random circuits (command by command on gaussian / bosonic; before / after on fock)
+# ------------------------------------------------------------------------------------------------------------
+c05_names_g = list(sfgen.GAUSSIAN_GATES) + list(sfgen.CHANNELS) + list(sfgen.PREPS)
+c05_names_f = [x for x in c05_names_g if x != "ThermalLossChannel"] + ["Kgate", "Vgate", "CKgate", "Fock"]
+FOCK_CUTOFF = {1: 10, 2: 7, 3: 5}
+
+
+def rand_cov(rng, k):
+    """A physical k-mode covariance matrix (xxpp, hbar = 2 units) with x-p and inter-mode correlations."""
+    nu = [1.0 + (rng.uniform(0, 0.8) if rng.random() < 0.6 else 0.0) for _ in range(k)]
+    V = np.diag(nu + nu)
+
+    def rot(i, th):
+        S = np.eye(2 * k)
+        S[i, i] = S[i + k, i + k] = math.cos(th)
+        S[i, i + k] = -math.sin(th)
+        S[i + k, i] = math.sin(th)
+        return S
+    for i in range(k):
+        r = rng.uniform(-0.6, 0.6)
+        Sq = np.eye(2 * k)
+        Sq[i, i], Sq[i + k, i + k] = math.exp(-r), math.exp(r)
+        S = rot(i, rng.uniform(-math.pi, math.pi)) @ Sq @ rot(i, rng.uniform(-math.pi, math.pi))
+        V = S @ V @ S.T
+    for i in range(k - 1):
+        th = rng.uniform(0.2, 1.3)
+        B = np.eye(2 * k)
+        for o in (0, k):
+            B[i + o, i + o] = B[i + 1 + o, i + 1 + o] = math.cos(th)
+            B[i + o, i + 1 + o] = -math.sin(th)
+            B[i + 1 + o, i + o] = math.sin(th)
+        S = B @ rot(i, rng.uniform(-1, 1))
+        V = S @ V @ S.T
+    return (V + V.T) / 2
+
+
+def extra_cmd(rng, n, name, hbar):
+    if name == "GaussianNoDecomp":
+        k = rng.randint(1, min(2, n))
+        V = rand_cov(rng, k) * (hbar / 2)
+        r = [round(rng.uniform(-0.6, 0.6), 3) * math.sqrt(hbar / 2) if rng.random() < 0.6 else 0.0 for _ in range(2 * k)]
+        return [name, [np.round(V, 9).tolist(), r], rng.sample(range(n), k), False]
+    if name == "MeasureHomodyne":
+        return [name, [rng.choice([0.0, math.pi / 2, round(rng.uniform(-3, 3), 3)])], [rng.randrange(n)], False]
+    if name in ("MeasureHeterodyne", "MeasureThreshold"):
+        return [name, [], [rng.randrange(n)], False]
+    if name == "MSgate":
+        avg = rng.random() < 0.6
+        return [name, [round(rng.uniform(-0.5, 0.5), 3), round(rng.uniform(-3, 3), 3), round(rng.uniform(0.6, 1.6), 3), rng.choice([1.0, round(rng.uniform(0.7, 0.99), 3)]), avg], [rng.randrange(n)], False]
+    if name in ("MeasureHomodyneSel", "MeasureHeterodyneSel"):
+        return sfgen.random_cmd(rng, n, [name], 0.0)
+    raise KeyError(name)
+
+
+EXTRA_G = ["GaussianNoDecomp", "MeasureHomodyneSel", "MeasureHeterodyneSel", "MeasureHomodyne", "MeasureHeterodyne"]
+EXTRA_B = EXTRA_G + ["MeasureThreshold", "MSgate", "MSgate"]
+
+
+def gen_circuit_case(rng, backend):
+    fock = backend.startswith("fock")
+    if fock:
+        n = rng.randint(1, 3)
+    else:
+        n = rng.choice([1, 2, 2, 3, 3, 4, 4, 5]) if rng.random() < 0.96 else rng.randint(10, 11)
+    hbar = rng.choice(HBARS)
+    pre = bc.weak_prefix(rng, n)
+    if fock:
+        pre = [c for c in pre if c[0] != "ThermalLossChannel"]
+    names = list(c05_names_f if fock else c05_names_g)
+    mode = rng.choice(["any", "any", "passive", "unitary", "loss"])
+    pool = {"any": names, "passive": PASSIVE, "unitary": UNITARY, "loss": ["LossChannel"]}[mode]
+    if fock and mode == "passive":
+        pool = NUMBER_PRESERVING
+    if backend == "gaussian" and mode in ("any", "loss"):
+        pool = pool + ["PassiveChannel"]  # a contraction T: physical output, never more photons
+    tail = []
+    for _ in range(rng.randint(1, 4 if not fock else 3)):
+        if mode == "any" and rng.random() < (0.15 if fock else 0.4):
             if fock:
-                pre = [c for c in pre if c[0] != "ThermalLossChannel"]
-            names = [x for x in (c05_names_f if fock else c05_names_g)]
-            mode = rng.choice(["any", "passive", "unitary", "loss"])
-            pool = {"any": names, "passive": PASSIVE, "unitary": UNITARY, "loss": ["LossChannel"]}[mode]
-            if backend == "gaussian" and mode in ("any", "loss"):
-                pool = pool + ["PassiveChannel"]  # a contraction T: physical output, never more photons
-            tail = [bc.weak_cmd(rng, n, pool) for _ in range(rng.randint(1, 3))]
-            if mode == "any" and not fock and n >= 2 and rng.random() < 0.5:
-                # a post-selected measurement of a mode that is correlated with the others: the conditional state must be physical
-                tail.insert(rng.randint(0, len(tail)), sfgen.random_cmd(rng, n, ["MeasureHomodyneSel", "MeasureHeterodyneSel"], 0.0))
-            spec0 = {"n": n, "cmds": pre}
-            spec1 = {"n": n, "cmds": pre + tail}
-            data = {"check": "phys", "backend": backend, "mode": mode, "n": n, "pre": pre, "tail": tail}
-            try:
-                v0, m0 = check_state(backend, spec0)
-                v1, m1 = check_state(backend, spec1)
-            except Exception as e:
-                ctx.counterexample("physical:%s:raises:%s" % (backend, type(e).__name__), "running %s raised %r" % (tail, e), data)
-                continue
-            nontriv = n >= 2 and any(max(c[2]) > 0 for c in tail)
-            ctx.case({"backend": backend, "mode": mode, "n": n, "tail": tail}, nontrivial=nontriv, bucket="phys-%s-%s" % (backend, mode))
-            ops_ = "+".join(sorted(set(c[0] for c in tail)))
-            if v1:
-                ctx.counterexample("physical:%s:%s:%s" % (backend.split("-")[0], v1.split("(")[0], ops_), "state after %s on %s is not physical: %s" % (tail, backend, v1), data)
-                continue
-            slack = 1e-7 if not fock else 1e-6 + 40 * max(0.0, 1 - m1.get("trace", 1.0)) + 40 * max(0.0, 1 - m0.get("trace", 1.0))
-            if mode == "passive" and abs(m1["photons"] - m0["photons"]) > max(slack, 1e-7) * (10 if fock else 1):
-                ctx.counterexample("photons:%s:passive-changes:%s" % (backend.split("-")[0], ops_), "passive gates %s changed total mean photon number %.9g -> %.9g on %s" % (tail, m0["photons"], m1["photons"], backend), data)
-            if mode == "loss" and m1["photons"] > m0["photons"] + slack:
-                ctx.counterexample("photons:%s:loss-increases" % backend.split("-")[0], "loss increased total mean photon number %.9g -> %.9g on %s" % (m0["photons"], m1["photons"], backend), data)
-            if mode in ("unitary", "passive") and abs(m1["purity"] - m0["purity"]) > (1e-6 if not fock else max(1e-5, 10 * slack)):
-                ctx.counterexample("purity:%s:unitary-changes:%s" % (backend.split("-")[0], ops_), "unitary gates %s changed purity %.9g -> %.9g on %s" % (tail, m0["purity"], m1["purity"], backend), data)
+                if rng.random() < 0.5:
+                    tail.append(sfgen.random_cmd(rng, n, ["MeasureHomodyneSel"], 0.0))
+                else:
+                    tail.append(["MeasureFockSel", [rng.choice([0, 0, 1])], [rng.randrange(n)], False])
+            else:
+                tail.append(extra_cmd(rng, n, rng.choice(EXTRA_B if backend == "bosonic" else EXTRA_G), hbar))
+        else:
+            tail.append(bc.weak_cmd(rng, n, pool))
+    if n >= 10 and not any(max(c[2]) >= 9 for c in tail):
+        tail.append(bc.weak_cmd(rng, n, ["BSgate"]))
+        tail[-1][2] = [n - 1, rng.randrange(n - 1)] if rng.random() < 0.5 else [rng.randrange(n - 1), n - 1]
+    return {"check": "phys", "backend": backend, "mode": mode, "n": n, "hbar": hbar, "cutoff": FOCK_CUTOFF[n] if fock else 0,
+            "pre": pre, "tail": tail, "np_seed": rng.randrange(2 ** 31), "stepwise": not fock}
 
 
+class CaseTimeout(Exception):
+    pass
+
+
+def _alarm(sig, frm):
+    raise CaseTimeout()
+
+
+def eval_steps(d):
+    """Returns None, 'skip', or (signature, text).  A case that does not finish within two minutes is reported (it normally takes milliseconds)."""
+    import signal
+    try:
+        old = signal.signal(signal.SIGALRM, _alarm)
+        signal.alarm(120)
+    except ValueError:      # not in the main thread
+        old = None
+    try:
+        return _eval_steps(d)
+    except CaseTimeout:
+        return ("physical:%s:does-not-terminate:%s" % (bshort(d["backend"]), opsig(d["pre"] + d["tail"])), "the program did not finish within 120 s")
+    finally:
+        if old is not None:
+            signal.alarm(0)
+            signal.signal(signal.SIGALRM, old)
+
+
+def _eval_steps(d):
+    backend, n, hbar, cutoff = d["backend"], d["n"], d.get("hbar", 2), d.get("cutoff") or 8
+    fock = backend.startswith("fock")
+    b = bshort(backend)
+    pre, tail = d["pre"], d["tail"]
+    cuts = list(range(len(tail) + 1)) if d.get("stepwise") else [0, len(tail)]
+    exact = bool(d.get("exact"))
+    kw = {"tol": 1e-10, "psd_tol": 1e-9} if exact else {}
+    if d.get("dm_cutoff"):
+        kw["dm_cutoff"] = d["dm_cutoff"]
+    prev = None
+    for idx, j in enumerate(cuts):
+        spec = {"n": n, "cmds": pre + tail[:j]}
+        step = tail[cuts[idx - 1]:j] if idx else []
+        try:
+            v, m = check_state(backend, spec, cutoff, hbar, d.get("np_seed"), **kw)
+        except ZeroDivisionError:
+            return "skip"      # post-selection on an outcome of probability zero
+        except CaseTimeout:
+            raise
+        except Exception as e:
+            return ("physical:%s:raises:%s:%s" % (b, type(e).__name__, opsig(step or pre)), "running %s raised %r" % (step or "the prefix", e))
+        if v:
+            return ("physical:%s:%s:%s" % (b, v.split("(")[0], opsig(step or pre)), "state after %s on %s (hbar %s) is not physical: %s" % (step or pre, backend, hbar, v))
+        if exact and abs(m["trace"] - 1) > 1e-9:
+            return ("fock:trace-lost-without-truncation:%s" % opsig(step or pre), "nothing can be truncated here, but after %s the trace is %.10f" % (step or pre, m["trace"]))
+        if prev is not None:
+            kind = classify(step)
+            if fock and not exact:
+                slack = 1e-6 + 40 * max(0.0, 1 - m["trace"]) + 40 * max(0.0, 1 - prev["trace"])
+                ph_tol, pur_tol = 10 * slack, max(1e-5, 10 * slack)
+            elif exact:
+                ph_tol, pur_tol = 1e-9, 1e-9
+            else:
+                ph_tol = 1e-7 + m.get("ph_noise", 0.0) + prev.get("ph_noise", 0.0)
+                pur_tol = 1e-6 + m.get("pur_noise", 0.0) + prev.get("pur_noise", 0.0)
+                if any(c[0] == "PassiveChannel" for c in step):
+                    ph_tol += 2e-5      # T is written with 6 decimals: its singular values may exceed 1 by 1e-6
+            lv = law_violation(kind, prev, m, ph_tol, pur_tol)
+            if lv:
+                return ("%s:%s:%s:%s" % (lv[0], b, lv[1], opsig(step)), "%s %s on %s (hbar %s)" % (step, lv[2], backend, hbar))
+            if exact and len(step) == 1 and step[0][0] == "LossChannel":
+                T, k = step[0][1][0], live_modes(spec).index(step[0][2][0])
+                if abs(m["photons"][k] - T * prev["photons"][k]) > 1e-9:
+                    return ("fock:loss:loss-photon-number", "LossChannel(%s) took the mean photon number of mode %d from %.9g to %.9g" % (T, k, prev["photons"][k], m["photons"][k]))
+            if d.get("truncation") and fock:
+                lost = prev["trace"] - m["trace"]
+                if lost > 1e-8 + 200 * (prev["top"] + m["top"]):
+                    return ("fock:trace-lost-without-truncation:%s" % opsig(step), "%s lost %.3g of the trace while the population next to the cutoff is %.3g" % (step, lost, prev["top"] + m["top"]))
+        elif d.get("truncation") and fock:
+            if 1 - m["trace"] > 1e-8 + 200 * m["top"]:
+                return ("fock:trace-lost-without-truncation:%s" % opsig(pre), "%s lost %.3g of the trace while the population next to the cutoff is %.3g" % (pre, 1 - m["trace"], m["top"]))
+        prev = m
+    return None
+
+
+def run_family(ctx, gen, count, bucket_fn, nontriv_fn):
+    done, tries = 0, 0
+    while done < count and tries < 3 * count + 10:
+        tries += 1
+        d = gen()
+        r = eval_steps(d)
+        if r == "skip":
+            continue
+        done += 1
+        ctx.case({k: d[k] for k in d if k not in ("pre", "np_seed")}, nontrivial=nontriv_fn(d), bucket=bucket_fn(d))
+        if r:
+            ctx.counterexample(r[0], r[1], d)
+
+
+def search_circuits(ctx):
+    rng = ctx.rng
+    per = ctx.budget({"gaussian": 260, "bosonic": 220, "fock-pure": 16, "fock-mixed": 14},
+                     {"gaussian": 2600, "bosonic": 2200, "fock-pure": 140, "fock-mixed": 110})
+    for backend, cnt in per.items():
+        run_family(ctx, lambda: gen_circuit_case(rng, backend), cnt,
+                   lambda d: "phys-%s-%s" % (d["backend"], d["mode"]),
+                   lambda d: d["n"] >= 2 and any(max(c[2]) > 0 for c in d["tail"]))
+
+
+# ------------------------------------------------------------------------------------------------------------
+# family 2: New / Del histories
+# ------------------------------------------------------------------------------------------------------------
 def search_histories(ctx):
     """Programs that create and delete modes along the way: the final state must be physical on every backend."""
     rng = ctx.rng
-    per = ctx.budget({"gaussian": 50, "bosonic": 40, "fock-pure": 8, "fock-mixed": 8},
-                     {"gaussian": 500, "bosonic": 400, "fock-pure": 60, "fock-mixed": 60})
+    per = ctx.budget({"gaussian": 80, "bosonic": 60, "fock-pure": 8, "fock-mixed": 8},
+                     {"gaussian": 800, "bosonic": 600, "fock-pure": 60, "fock-mixed": 60})
     for backend, cnt in per.items():
         fock = backend.startswith("fock")
         names = c05_names_f if fock else c05_names_g
@@ -186,18 +629,359 @@ def search_histories(ctx):
             # make the state correlated and complex before modes are added: entangle the initial modes first
             pre = [c for c in bc.weak_prefix(rng, spec["n"]) if not (fock and c[0] == "ThermalLossChannel")]
             spec["cmds"] = pre + spec["cmds"]
-            data = {"check": "hist", "backend": backend, "spec": spec}
+            hbar = rng.choice(HBARS)
+            cutoff = 6
+            data = {"check": "hist", "backend": backend, "spec": spec, "hbar": hbar, "cutoff": cutoff}
             try:
-                v, m = check_state(backend, spec)
+                v, m = check_state(backend, spec, cutoff, hbar)
             except Exception as e:
-                ctx.counterexample("history:%s:raises:%s" % (backend.split("-")[0], type(e).__name__), "running a New/Del history raised %r" % e, data)
+                ctx.counterexample("history:%s:raises:%s" % (bshort(backend), type(e).__name__), "running a New/Del history raised %r" % e, data)
                 continue
             nd = sum(1 for c in spec["cmds"] if c[0] in ("New", "Del"))
             ctx.case({"backend": backend, "history": [c[0] for c in spec["cmds"]]}, nontrivial=nd > 0, bucket="hist-%s" % backend)
             if v:
-                ctx.counterexample("history:%s:%s" % (backend.split("-")[0], v.split("(")[0]), "state after a history with mode creation/deletion is not physical on %s: %s" % (backend, v), data)
+                ctx.counterexample("history:%s:%s" % (bshort(backend), v.split("(")[0]), "state after a history with mode creation/deletion is not physical on %s: %s" % (backend, v), data)
 
 
+# ------------------------------------------------------------------------------------------------------------
+# family 3: multi-component bosonic states
+# ------------------------------------------------------------------------------------------------------------
+def gen_nongauss_prep(rng):
+    """(command without modes, number of components (estimate), exactly pure?)"""
+    kind = rng.choice(["cat-c", "cat-c", "cat-r", "fock", "fock", "gkp"])
+    if kind == "cat-c":
+        p = rng.choice([0, 1, 0.5, round(rng.uniform(0, 2), 3)])
+        return ["Catstate", [round(rng.uniform(0.5, 1.6), 3), rng.choice([0.0, math.pi / 2, round(rng.uniform(-3, 3), 3), round(rng.uniform(-3, 3), 3)]), p, "complex"]], 4
+    if kind == "cat-r":
+        return ["Catstate", [round(rng.uniform(0.7, 1.5), 3), rng.choice([0.0, round(rng.uniform(-3, 3), 3)]), rng.choice([0, 1, 0.5]), "real"]], 60
+    if kind == "fock":
+        k = rng.randint(1, 3)
+        return ["Fock", [k]], k + 1
+    return ["GKP", [rng.choice([0.0, math.pi, math.pi / 2, round(rng.uniform(0, 3.1), 3)]), rng.choice([0.0, round(rng.uniform(-3, 3), 3)]), round(rng.uniform(0.45, 1.0), 3), 1e-12]], 250
+
+
+def gen_bosonic_ng_case(rng):
+    n = rng.choice([1, 1, 2, 2, 2, 3])
+    hbar = rng.choice(HBARS)
+    order = rng.sample(range(n), n)
+    pre, W = [], 1
+    k_ng = 1 if n == 1 or rng.random() < 0.7 else 2
+    for i, m in enumerate(order):
+        if i < k_ng:
+            c, w = gen_nongauss_prep(rng)
+            if W * w > 900:
+                c, w = ["Fock", [1]], 2
+            W *= w
+            pre.append([c[0], c[1], [m], False])
+        elif rng.random() < 0.7:
+            pre.append(["Sgate", [round(rng.uniform(0.1, 0.4), 3) * rng.choice([1, -1]), round(rng.uniform(-1, 1), 3)], [m], False])
+            pre.append(["Dgate", [round(rng.uniform(0.1, 0.5), 3), round(rng.uniform(-2, 2), 3)], [m], False])
+    for i in range(n - 1):
+        if rng.random() < 0.8:
+            pre.append(["BSgate", [round(rng.uniform(0.3, 1.2), 3), round(rng.uniform(-1, 1), 3)], rng.sample(range(n), 2), False])
+    mode = rng.choice(["any", "any", "measure", "passive", "unitary", "loss"])
+    pool = {"any": c05_names_g, "measure": c05_names_g, "passive": PASSIVE, "unitary": UNITARY, "loss": ["LossChannel"]}[mode]
+    tail = []
+    for _ in range(rng.randint(1, 3)):
+        if mode in ("any", "measure") and rng.random() < (0.35 if mode == "any" else 0.8):
+            names = ["MeasureHomodyneSel", "MeasureHeterodyneSel", "MeasureThreshold", "MeasureHomodyne", "MeasureHeterodyne", "MSgate", "GaussianNoDecomp"]
+            if mode == "measure":
+                names = names[:5]
+            if any(c[0] == "Fock" for c in pre):
+                # sampled measurements use rejection sampling with acceptance ~ 1 / sum |w_i| (1e-3 .. 1e-8 for the Fock representation)
+                names = [x for x in names if x not in ("MeasureHomodyne", "MeasureHeterodyne", "MSgate")] + (["MSgate"] if mode == "any" else [])
+            tail.append(extra_cmd(rng, n, rng.choice(names), hbar))
+            if tail[-1][0] == "MSgate" and any(c[0] == "Fock" for c in pre):
+                tail[-1][1][4] = True
+            if tail[-1][0] == "MeasureThreshold" and any(c[0].startswith("Measure") and c[2] == tail[-1][2] for c in tail[:-1]):
+                tail.pop()      # threshold detection of a mode that a measurement has left in vacuum: known finding (vacuum fidelity 1 + 4e-15 -> negative probability), kept in the corpus
+        else:
+            tail.append(bc.weak_cmd(rng, n, pool))
+    return {"check": "bos-ng", "backend": "bosonic", "mode": mode, "n": n, "hbar": hbar, "pre": pre, "tail": tail, "np_seed": rng.randrange(2 ** 31),
+            "stepwise": True, "dm_cutoff": 12 if W <= 300 else 0}
+
+
+def search_bosonic_nongauss(ctx):
+    rng = ctx.rng
+    run_family(ctx, lambda: gen_bosonic_ng_case(rng), ctx.budget(70, 700),
+               lambda d: "bos-ng-%s-%s" % (d["mode"], "+".join(sorted(set(c[0] + (":" + c[1][3] if c[0] == "Catstate" else "") for c in d["pre"] if c[0] in ("Catstate", "GKP", "Fock"))))),
+               lambda d: True)
+
+
+# ------------------------------------------------------------------------------------------------------------
+# family 4: exactly representable Fock states (nothing can be truncated)
+# ------------------------------------------------------------------------------------------------------------
+def _rand_ket(rng, c, k, budget):
+    """Random complex amplitudes on the basis states of k modes with at most `budget` photons in total."""
+    re, im = np.zeros([c] * k), np.zeros([c] * k)
+    idxs = [ix for ix in np.ndindex(*([c] * k)) if sum(ix) <= budget]
+    chosen = rng.sample(idxs, rng.randint(1, min(4, len(idxs))))
+    for ix in chosen:
+        re[ix], im[ix] = rng.uniform(-1, 1), rng.uniform(-1, 1)
+    nrm = math.sqrt(float((re ** 2 + im ** 2).sum()))
+    return re / nrm, im / nrm, max(sum(ix) for ix in chosen)
+
+
+def _ket_cmd(rng, c, modes, budget, as_dm):
+    k = len(modes)
+    re, im, used = _rand_ket(rng, c, k, budget)
+    if not as_dm:
+        return ["Ket", [np.round(re, 12).tolist(), np.round(im, 12).tolist()], list(modes), False], used
+    re2, im2, used2 = _rand_ket(rng, c, k, budget)
+    p = rng.uniform(0.2, 0.8)
+    a, b = re + 1j * im, re2 + 1j * im2
+    rho = p * np.multiply.outer(a, a.conj()) + (1 - p) * np.multiply.outer(b, b.conj())   # axes (i0..ik-1, j0..jk-1)
+    rho = np.transpose(rho, [x for i in range(k) for x in (i, i + k)])              # -> (i0, j0, i1, j1, ...)
+    return ["DensityMatrix", [rho.real.tolist(), rho.imag.tolist()], list(modes), False], max(used, used2)
+
+
+def gen_fock_many_modes_case(rng, two_mode=True):
+    """10 modes at cutoff 2 with a single photon: passive gates and loss on mode indices up to 9 (pure representation)."""
+    n, c = 10, 2
+    if not two_mode:     # matrix-multiplication path only (each new tensor rank costs a numba compilation of the two-mode kernels)
+        pre = [["Fock", [1], [9], False], ["Fock", [1], [rng.randrange(9)], False]]
+        tail = [["Rgate", [round(rng.uniform(-3, 3), 3)], [9], False], ["CKgate", [round(rng.uniform(-3, 3), 3)], rng.choice([[9, pre[1][2][0]], [pre[1][2][0], 9]]), False],
+                ["LossChannel", [round(rng.uniform(0.2, 0.8), 3)], [9], False], ["Kgate", [round(rng.uniform(-3, 3), 3)], [pre[1][2][0]], False]]
+        return {"check": "fock-exact", "backend": "fock-pure", "mode": "many-modes", "n": n, "hbar": 2, "cutoff": c,
+                "pre": pre, "tail": tail, "np_seed": 0, "stepwise": False, "exact": True}
+    src = rng.choice([0, 9, rng.randrange(n)])
+    pre = [["Fock", [1], [src], False]]
+    tail = []
+    a = src
+    for _ in range(3):
+        b = rng.choice([x for x in range(n) if x != a])
+        if 9 not in (a, b) and rng.random() < 0.5:
+            b = 9
+        tail.append([rng.choice(["BSgate", "MZgate"]), [round(rng.uniform(0.3, 1.2), 3), round(rng.uniform(-2, 2), 3)], [a, b] if rng.random() < 0.5 else [b, a], False])
+        a = b
+    tail.insert(rng.randint(1, 3), ["LossChannel", [round(rng.uniform(0.2, 0.8), 3)], [a], False] if rng.random() < 0.5 else ["Rgate", [round(rng.uniform(-3, 3), 3)], [a], False])
+    return {"check": "fock-exact", "backend": "fock-pure", "mode": "many-modes", "n": n, "hbar": 2, "cutoff": c,
+            "pre": pre, "tail": tail, "np_seed": 0, "stepwise": False, "exact": True}
+
+
+def gen_fock_exact_case(rng, big=False, two_mode=True):
+    if big:
+        return gen_fock_many_modes_case(rng, two_mode)
+    else:
+        c = rng.choice([3, 3, 4, 5])
+        n = rng.randint(1, 3)
+        pure = rng.random() < 0.5
+    B = c - 1
+    used = 0
+    pre = []
+    kind = rng.choice(["fock", "fock", "ket", "dm"])
+    if kind == "fock":
+        for m in rng.sample(range(n), n):
+            k = rng.randint(0, B - used)
+            if k:
+                pre.append(["Fock", [k], [m], False])
+                used += k
+    else:
+        k = rng.randint(1, min(n, 2))
+        cmd, used = _ket_cmd(rng, c, rng.sample(range(n), k), B, kind == "dm")
+        pre.append(cmd)
+    live = list(range(n))
+    total = n
+    tail = []
+    for _ in range(rng.randint(2, 6)):
+        r = rng.random()
+        if r < 0.5:
+            pool = [x for x in NUMBER_PRESERVING if sfgen.ALL[x][0] <= len(live)]
+            cmd = bc.weak_cmd(rng, len(live), pool)
+            cmd[2] = [live[i] for i in cmd[2]]
+        elif r < 0.7:
+            cmd = ["LossChannel", [rng.choice([0.0, 1.0, 0.5, 0.25, round(rng.uniform(0.05, 0.95), 3)])], [rng.choice(live)], False]
+        elif r < 0.8:
+            k = rng.randint(0, B - used)
+            used += k
+            cmd = ["Fock", [k], [rng.choice(live)], False] if rng.random() < 0.7 else ["Vacuum", [], [rng.choice(live)], False]
+            if cmd[0] == "Vacuum":
+                used -= k
+        elif r < 0.86 and B - used >= 0 and len(live) >= 1:
+            kk = rng.randint(1, min(len(live), 2))
+            cmd, u2 = _ket_cmd(rng, c, rng.sample(live, kk), B - used, rng.random() < 0.4)
+            used += u2
+        elif r < 0.93:
+            cmd = ["MeasureFockSel", [rng.choice([0, 0, 1, rng.randint(0, B)])], [rng.choice(live)], False]
+        elif r < 0.97 and len(live) < 3 and total < 5:
+            cmd = ["New", [], [total], False]
+            live.append(total)
+            total += 1
+        elif len(live) > 1:
+            m = rng.choice(live)
+            live.remove(m)
+            cmd = ["Del", [], [m], False]
+        else:
+            continue
+        tail.append(cmd)
+    return {"check": "fock-exact", "backend": "fock-pure" if pure else "fock-mixed", "mode": kind, "n": n, "hbar": rng.choice(HBARS), "cutoff": c,
+            "pre": pre, "tail": tail, "np_seed": 0, "stepwise": True, "exact": True}
+
+
+def search_fock_exact(ctx):
+    rng = ctx.rng
+    run_family(ctx, lambda: gen_fock_exact_case(rng), ctx.budget(110, 1100),
+               lambda d: "fock-exact-%s-%s" % (d["backend"], d["mode"]), lambda d: True)
+    run_family(ctx, lambda: gen_fock_exact_case(rng, big=True, two_mode=not ctx.quick), ctx.budget(1, 6),
+               lambda d: "fock-exact-%d-modes" % d["n"], lambda d: True)
+
+
+# ------------------------------------------------------------------------------------------------------------
+# family 5: low-energy Fock circuits at a large cutoff: trace may only be lost where there is population next to the cutoff
+# ------------------------------------------------------------------------------------------------------------
+def gen_fock_trunc_case(rng):
+    n = rng.choice([1, 1, 2])
+    pure = rng.random() < 0.5
+    cutoff = 20 if n == 1 else 11
+    sg = lambda: rng.choice([1, -1])
+    ang = lambda: rng.choice([0.0, math.pi / 2, round(rng.uniform(-3, 3), 3)])
+    cmds = []
+    for _ in range(rng.randint(2, 5)):
+        m = rng.randrange(n)
+        two = rng.sample(range(n), 2) if n == 2 else None
+        name = rng.choice(["Coherent", "Squeezed", "DisplacedSqueezed", "Thermal", "Fock", "Vacuum", "Catstate", "Dgate", "Sgate", "Rgate", "Kgate", "Vgate", "Xgate", "Zgate",
+                           "Pgate", "Fouriergate", "LossChannel", "MeasureHomodyneSel", "MeasureFockSel"] + (["BSgate", "MZgate", "S2gate", "CKgate", "CXgate", "CZgate"] * 2 if n == 2 else []))
+        dag = rng.random() < 0.2
+        if name == "Coherent":
+            c = [name, [round(rng.uniform(0, 0.45), 3), ang()], [m], False]
+        elif name == "Squeezed":
+            c = [name, [round(rng.uniform(0.02, 0.25), 3) * sg(), ang()], [m], False]
+        elif name == "DisplacedSqueezed":
+            c = [name, [round(rng.uniform(0.05, 0.35), 3), ang(), round(rng.uniform(0.05, 0.2), 3) * sg(), ang()], [m], False]
+        elif name == "Thermal":
+            c = [name, [rng.choice([0.0, round(rng.uniform(0.01, 0.15), 3)])], [m], False]
+        elif name == "Fock":
+            c = [name, [rng.randint(0, 2)], [m], False]
+        elif name == "Vacuum":
+            c = [name, [], [m], False]
+        elif name == "Catstate":
+            c = [name, [round(rng.uniform(0.1, 0.6), 3), ang(), rng.choice([0, 1, 0.5]), "complex"], [m], False]
+        elif name == "Dgate":
+            c = [name, [round(rng.uniform(0, 0.3), 3), ang()], [m], dag]
+        elif name == "Sgate":
+            c = [name, [round(rng.uniform(0, 0.2), 3) * sg(), ang()], [m], dag]
+        elif name in ("Rgate", "Kgate"):
+            c = [name, [ang()], [m], dag]
+        elif name == "Vgate":
+            c = [name, [round(rng.uniform(-0.05, 0.05), 3)], [m], dag]
+        elif name in ("Xgate", "Zgate"):
+            c = [name, [round(rng.uniform(-0.4, 0.4), 3)], [m], dag]
+        elif name == "Pgate":
+            c = [name, [round(rng.uniform(-0.15, 0.15), 3)], [m], dag]
+        elif name == "Fouriergate":
+            c = [name, [], [m], dag]
+        elif name == "LossChannel":
+            c = [name, [rng.choice([0.0, 1.0, round(rng.uniform(0.1, 0.9), 3)])], [m], False]
+        elif name == "MeasureHomodyneSel":
+            c = [name, [ang(), round(rng.uniform(-0.5, 0.5), 3)], [m], False]
+        elif name == "MeasureFockSel":
+            c = [name, [rng.choice([0, 0, 1])], [m], False]
+        elif name in ("BSgate", "MZgate"):
+            c = [name, [ang(), ang()], two, dag]
+        elif name == "S2gate":
+            c = [name, [round(rng.uniform(0, 0.2), 3) * sg(), ang()], two, dag]
+        elif name == "CKgate":
+            c = [name, [ang()], two, dag]
+        else:
+            c = [name, [round(rng.uniform(-0.12, 0.12), 3)], two, dag]
+        cmds.append(c)
+    return {"check": "fock-trunc", "backend": "fock-pure" if pure else "fock-mixed", "mode": "low-energy", "n": n, "hbar": rng.choice(HBARS), "cutoff": cutoff,
+            "pre": cmds[:1], "tail": cmds[1:], "np_seed": 0, "stepwise": True, "truncation": True}
+
+
+def search_fock_trunc(ctx):
+    rng = ctx.rng
+    run_family(ctx, lambda: gen_fock_trunc_case(rng), ctx.budget(70, 700),
+               lambda d: "fock-trunc-%s-%d" % (d["backend"], d["n"]), lambda d: True)
+
+
+# ------------------------------------------------------------------------------------------------------------
+# family 6: photon numbers, purity and trace do not depend on the unit convention; vacuum anchors
+# ------------------------------------------------------------------------------------------------------------
+HBAR_FREE = ["Dgate", "Sgate", "Rgate", "Fouriergate", "BSgate", "MZgate", "S2gate", "LossChannel", "ThermalLossChannel", "Vacuum", "Coherent", "Squeezed", "DisplacedSqueezed", "Thermal"]
+
+
+def gen_hbar_case(rng, backend):
+    fock = backend.startswith("fock")
+    n = rng.randint(1, 2 if fock else 4)
+    pre = [c for c in bc.weak_prefix(rng, n) if not (fock and c[0] == "ThermalLossChannel")]
+    pool = [x for x in HBAR_FREE if not (fock and x == "ThermalLossChannel")] + (["Kgate", "CKgate", "Fock"] if fock else [])
+    tail = [bc.weak_cmd(rng, n, pool) for _ in range(rng.randint(1, 3))]
+    if backend == "bosonic" and rng.random() < 0.5:
+        c, _ = gen_nongauss_prep(rng)
+        if c[0] != "GKP" and not (c[0] == "Catstate" and c[1][3] == "real"):
+            pre = [[c[0], c[1], [0], False]] + [x for x in pre if x[2] != [0] or x[0] == "BSgate"]
+    return {"check": "hbar", "backend": backend, "n": n, "hbar": rng.choice([1, 0.5, 1.7, 4, 3]), "cutoff": FOCK_CUTOFF[n] if fock else 0, "cmds": pre + tail}
+
+
+def eval_hbar(d):
+    spec = {"n": d["n"], "cmds": d["cmds"]}
+    b = bshort(d["backend"])
+    out = []
+    for h in (2, d["hbar"]):
+        try:
+            v, m = check_state(d["backend"], spec, d.get("cutoff") or 8, h)
+        except Exception as e:
+            return ("physical:%s:raises:%s:hbar" % (b, type(e).__name__), "running at hbar = %s raised %r" % (h, e))
+        if v:
+            return ("physical:%s:%s:hbar" % (b, v.split("(")[0]), "state at hbar = %s is not physical: %s" % (h, v))
+        out.append(m)
+    m2, mh = out
+    for i, (x, y) in enumerate(zip(m2["photons"], mh["photons"])):
+        if abs(x - y) > (1e-7 + m2.get("ph_noise", 0.0) + mh.get("ph_noise", 0.0)) * (1 + abs(x)):
+            return ("hbar:%s:mean_photon-depends-on-hbar" % b, "mean photon number of mode %d is %.9g at hbar = 2 and %.9g at hbar = %s" % (i, x, y, d["hbar"]))
+    if "purity" in m2 and "purity" in mh and abs(m2["purity"] - mh["purity"]) > 1e-6 + m2.get("pur_noise", 0.0) + mh.get("pur_noise", 0.0):
+        return ("hbar:%s:purity-depends-on-hbar" % b, "purity is %.9g at hbar = 2 and %.9g at hbar = %s" % (m2["purity"], mh["purity"], d["hbar"]))
+    if "trace" in m2 and abs(m2["trace"] - mh["trace"]) > 1e-9:
+        return ("hbar:%s:trace-depends-on-hbar" % b, "trace is %.9g at hbar = 2 and %.9g at hbar = %s" % (m2["trace"], mh["trace"], d["hbar"]))
+    return None
+
+
+def eval_anchor(d):
+    """Vacuum (empty program, or every mode through LossChannel(0) / Vacuum after a circuit): no photons, purity 1, trace 1."""
+    spec = {"n": d["n"], "cmds": d["cmds"]}
+    b = bshort(d["backend"])
+    try:
+        v, m = check_state(d["backend"], spec, d.get("cutoff") or 6, d["hbar"])
+    except Exception as e:
+        return ("physical:%s:raises:%s:anchor" % (b, type(e).__name__), "raised %r" % e)
+    if v:
+        return ("physical:%s:%s:anchor" % (b, v.split("(")[0]), "vacuum at hbar = %s is not physical: %s" % (d["hbar"], v))
+    if abs(m["total"]) > 1e-8:
+        return ("anchor:%s:vacuum-has-photons" % b, "vacuum has mean photon number %.9g (hbar = %s)" % (m["total"], d["hbar"]))
+    tr = m.get("trace", 1.0)     # (Fock: the prefix may have lost trace to the truncation)
+    if "purity" in m and abs(m["purity"] - tr ** 2) > 1e-7:
+        return ("anchor:%s:vacuum-not-pure" % b, "vacuum has purity %.9g (hbar = %s)" % (m["purity"], d["hbar"]))
+    if not d["cmds"] and abs(tr - 1) > 1e-9:
+        return ("anchor:%s:vacuum-trace" % b, "vacuum has trace %.9g" % tr)
+    return None
+
+
+def search_units(ctx):
+    rng = ctx.rng
+    for backend, cnt in ctx.budget({"gaussian": 30, "bosonic": 30, "fock-pure": 4, "fock-mixed": 4}, {"gaussian": 300, "bosonic": 300, "fock-pure": 30, "fock-mixed": 30}).items():
+        for _ in range(cnt):
+            d = gen_hbar_case(rng, backend)
+            r = eval_hbar(d)
+            ctx.case({k: d[k] for k in ("backend", "n", "hbar")} | {"ops": opsig(d["cmds"])}, nontrivial=d["n"] >= 2, bucket="hbar-%s" % backend)
+            if r:
+                ctx.counterexample(r[0], r[1], d)
+    for backend in bc.BACKENDS:
+        fock = backend.startswith("fock")
+        for hbar in (2, 0.5, 4):
+            for n in (1, 2, 3) if not fock else (1, 2):
+                clear = rng.choice(["LossChannel", "Vacuum"])
+                for cmds in ([], [c for c in bc.weak_prefix(rng, n) if not (fock and c[0] == "ThermalLossChannel")] + [[clear, [0.0] if clear == "LossChannel" else [], [i], False] for i in range(n)]):
+                    d = {"check": "anchor", "backend": backend, "n": n, "hbar": hbar, "cutoff": 6, "cmds": cmds}
+                    r = eval_anchor(d)
+                    ctx.case({"backend": backend, "n": n, "hbar": hbar, "empty": not cmds}, nontrivial=bool(cmds), bucket="anchor-%s" % backend)
+                    if r:
+                        ctx.counterexample(r[0], r[1], d)
+
+
+# ------------------------------------------------------------------------------------------------------------
+# family 7 (kept from the first rounds): population in the highest Fock level, then loss
+# ------------------------------------------------------------------------------------------------------------
 def fock_top_level_case(rng, pure):
     """Population in the highest Fock level, passive mixing (total photon number stays below the cutoff), then loss:
     nothing is truncated, so the trace must stay 1 and the photon number must scale exactly by T."""
@@ -215,8 +999,8 @@ def eval_fock_top_level(d):
     spec0 = {"n": d["n"], "cmds": d["cmds"]}
     spec1 = {"n": d["n"], "cmds": d["cmds"] + [["LossChannel", [d["loss"][0]], [d["loss"][1]], False]]}
     b = "fock-pure" if d["pure"] else "fock-mixed"
-    s0 = bc.run(spec0, b, d["cutoff"])
-    s1 = bc.run(spec1, b, d["cutoff"])
+    s0 = run_spec(spec0, b, d["cutoff"])
+    s1 = run_spec(spec1, b, d["cutoff"])
     tr0, tr1 = float(np.real(s0.trace())), float(np.real(s1.trace()))
     k = d["loss"][1]
     n0, n1 = float(s0.mean_photon(k)[0]), float(s1.mean_photon(k)[0])
@@ -227,12 +1011,7 @@ def eval_fock_top_level(d):
     return None
 
 
-_search_circuits = search
-
-
-def search(ctx):
-    _search_circuits(ctx)
-    search_histories(ctx)
+def search_fock_top(ctx):
     rng = ctx.rng
     for i in range(ctx.budget(16, 120)):
         d = fock_top_level_case(rng, pure=(i % 2 == 0))
@@ -246,34 +1025,48 @@ def search(ctx):
             ctx.counterexample("fock:loss:%s" % v.split("(")[0], "loss on a state with population in the top Fock level: %s" % v, {"check": "fock-top", "case": d})
 
 
-c05_names_g = list(sfgen.GAUSSIAN_GATES) + list(sfgen.CHANNELS) + list(sfgen.PREPS)
-c05_names_f = [x for x in c05_names_g if x not in ("ThermalLossChannel", "Thermal")] + ["Kgate", "Vgate", "CKgate", "Fock"]
+def search(ctx):
+    search_circuits(ctx)
+    search_histories(ctx)
+    search_bosonic_nongauss(ctx)
+    search_fock_exact(ctx)
+    search_fock_trunc(ctx)
+    search_units(ctx)
+    search_fock_top(ctx)
 
 
 def replay(ctx, data):
     d = data["data"]
-    if str(d.get("check", "")).startswith("bosonic"):
+    chk = str(d.get("check", ""))
+    if chk.startswith("bosonic"):
         return bm.replay_bosonic(ctx, data)
-    if d.get("check") == "fock-top":
+    if chk == "fock-top":
         v = eval_fock_top_level(d["case"])
         print("fock top level:", v)
         return bool(v)
-    if d.get("check") == "hist":
-        v, m = check_state(d["backend"], d["spec"])
+    if chk == "hist":
+        v, m = check_state(d["backend"], d["spec"], d.get("cutoff", 8), d.get("hbar", 2))
         print("state:", v, m)
         return bool(v)
-    if d.get("check") != "phys":
-        return False
-    v0, m0 = check_state(d["backend"], {"n": d["n"], "cmds": d["pre"]})
-    v1, m1 = check_state(d["backend"], {"n": d["n"], "cmds": d["pre"] + d["tail"]})
-    print("before:", v0, m0)
-    print("after: ", v1, m1)
-    if v1:
-        return True
-    if d["mode"] == "passive" and abs(m1["photons"] - m0["photons"]) > 1e-5:
-        return True
-    if d["mode"] == "loss" and m1["photons"] > m0["photons"] + 1e-5:
-        return True
-    if d["mode"] in ("unitary", "passive") and abs(m1["purity"] - m0["purity"]) > 1e-4:
-        return True
+    if chk == "bosonic-dm":
+        st = run_spec({"n": d["n"], "cmds": d["cmds"]}, "bosonic", hbar=d.get("hbar", 2))
+        rho = np.array(st.reduced_dm([d.get("mode", 0)], cutoff=d.get("dm_cutoff", 10)))
+        dev = float(np.abs(rho - rho.conj().T).max())
+        print("bosonic reduced_dm: max |rho - rho^dagger| =", dev)
+        return dev > 1e-8
+    if chk == "hbar":
+        r = eval_hbar(d)
+        print("hbar:", r)
+        return bool(r)
+    if chk == "anchor":
+        r = eval_anchor(d)
+        print("anchor:", r)
+        return bool(r)
+    if chk in ("phys", "bos-ng", "fock-exact", "fock-trunc"):
+        d = dict(d)
+        if chk == "phys" and "stepwise" not in d:     # replay files of the first rounds
+            d.update(stepwise=False, cutoff=8, hbar=2)
+        r = eval_steps(d)
+        print("steps:", r)
+        return bool(r) and r != "skip"
     return False
